@@ -59,9 +59,45 @@ class Scen:
     pass
 
 
+CANON = {"H": "dlxy", "P": "dxy", "S": "sxy", "W": "dlwxy", "C": "ezdxy", "G": "abxy", "E": "abceuv"}
+
+
+def make_names(rs, tmpl):
+    """names of the variables: the canonical single letters, or (45 %) names that are substrings of each other
+    (`x`, `x0`, `x0_noise`, `hx`, `a_x_2` ... prefix / suffix / infix, chains)"""
+    import keyword
+    canon = list(CANON[tmpl])
+    ren = {c: c for c in canon}
+    if rs.rand() >= 0.45:
+        return ren, "plain"
+    blocks = [c for c in canon if c != "y"]
+    root = blocks[int(rs.randint(len(blocks)))]
+    others = [c for c in blocks if c != root]
+    rs.shuffle(others)
+    prev = ren[root]
+    for c in others[:int(rs.randint(1, min(3, len(others)) + 1))]:
+        base = ren[root] if rs.rand() < 0.7 else prev
+        suf = str(rs.choice(["0", "_noise", "2", "s"])); pre = str(rs.choice(["h", "log_", "a_"]))
+        nm = [base + suf, pre + base, pre + base + suf][int(rs.randint(3))]
+        if nm.isidentifier() and not keyword.iskeyword(nm) and nm not in ren.values():
+            ren[c] = nm; prev = nm
+    if "y" in canon and rs.rand() < 0.3:
+        nm = ren[blocks[int(rs.randint(len(blocks)))]] + "_obs"
+        if nm not in ren.values():
+            ren["y"] = nm
+    return ren, "nested"
+
+
+def lam(arg, f):
+    """a lambda whose single argument is called `arg` (cuqi reads the conditioning variable from the argument name)"""
+    return eval(f"lambda {arg}: _f({arg})", {"_f": f})
+
+
 def build_joint(cuqi, rs, tmpl):
     """returns (post, roles) — roles: name -> (role, dim); post has >= 2 free parameters"""
     from cuqi.distribution import Gaussian, Gamma, JointDistribution, GMRF
+    ren, scheme = make_names(rs, tmpl)
+    R = lambda c: ren[c]
     n = int(rs.randint(2, 5))
     m = int(rs.randint(2, 6))
     Am = rs.randint(-2, 3, size=(m, n)).astype(float)
@@ -69,85 +105,85 @@ def build_joint(cuqi, rs, tmpl):
         Am[0, 0] = 1.0
     A = cuqi.model.LinearModel(Am)
     data = rs.randint(-3, 4, size=m).astype(float)
-    gam = lambda nm: Gamma(float(rs.choice([1.0, 2.0, 0.5, 3.0])), float(rs.choice([1.0, 0.5, 2.0])), name=nm)
-    roles = {}
+    gam = lambda c: Gamma(float(rs.choice([1.0, 2.0, 0.5, 3.0])), float(rs.choice([1.0, 0.5, 2.0])), name=R(c))
+    meta = {"__ren__": ren, "__naming__": scheme}
     if tmpl == "E":       # extreme scales and tiny moves: source blocks on scale 1e-9 / near 1e9 moving by 1e-3 /
         # near 1 moving in the 7th digit, each feeding a childless block that depends on it with gain 1e9 / 1e3 / 1e6
-        def mean_a(g, l): return lambda a: g * (a - l)
-        def mean_c(g, l): return lambda c: g * (c - l)
-        def mean_u(g, l): return lambda u: g * (u - l)
-        spec = {"a": (0.0, 1e-9, 1e9, "b", mean_a), "c": (1e9, 1e-3, 1e3, "e", mean_c), "u": (1.0, 1e-6, 1e6, "v", mean_u)}
+        spec = {"a": (0.0, 1e-9, 1e9, "b"), "c": (1e9, 1e-3, 1e3, "e"), "u": (1.0, 1e-6, 1e6, "v")}
         pairs = [k for k in ("a", "c", "u") if rs.rand() < 0.7] or [str(rs.choice(["a", "c", "u"]))]
-        dens, scales, locs = [], {}, {}
+        dens, scales, locs, leafof, roles = [], {}, {}, {}, {}
         for k in pairs:
-            loc, sd, gain, leaf, mk = spec[k]
+            loc, sd, gain, leaf = spec[k]
             dim = int(rs.randint(1, 3))
-            dens.append(Gaussian(loc * np.ones(dim), sd ** 2, name=k))
-            dens.append(Gaussian(mk(gain, loc), 1.0, geometry=dim, name=leaf))
-            roles[k] = ("tiny", dim); roles[leaf] = ("tinyleaf", dim)
-            scales[k] = sd; locs[k] = loc
-        roles["__scale__"] = scales; roles["__loc__"] = locs
+            dens.append(Gaussian(loc * np.ones(dim), sd ** 2, name=R(k)))
+            dens.append(Gaussian(lam(R(k), (lambda v, g=gain, l=loc: g * (v - l))), 1.0, geometry=dim, name=R(leaf)))
+            roles[R(k)] = ("tiny", dim); roles[R(leaf)] = ("tinyleaf", dim)
+            scales[R(k)] = sd; locs[R(k)] = loc; leafof[R(k)] = R(leaf)
+        roles.update(meta); roles["__scale__"] = scales; roles["__loc__"] = locs; roles["__leafof__"] = leafof
         dens = [dens[i] for i in rs.permutation(len(dens))]
         return JointDistribution(*dens), roles
     if tmpl == "G":       # hierarchies a -> b -> x whose consecutive members depend on each other directly
         if rs.rand() < 0.5:   # two hyper-parameters, the rate of the second is the first
             a = gam("a")
-            b = Gamma(float(rs.choice([1.0, 2.0, 3.0])), lambda a: a, name="b")
-            x = Gaussian(np.zeros(n), lambda b: 1 / b, name="x")
-            roles = {"a": ("hyper2", 1), "b": ("hyper2", 1), "x": ("latent", n)}
+            b = Gamma(float(rs.choice([1.0, 2.0, 3.0])), lam(R("a"), lambda v: v), name=R("b"))
+            x = Gaussian(np.zeros(n), lam(R("b"), lambda v: 1 / v), name=R("x"))
+            roles = {R("a"): ("hyper2", 1), R("b"): ("hyper2", 1), R("x"): ("latent", n)}
+            meta["__no0d__"] = {R("a"), R("b")}    # a 0-d value as the rate of a Gamma makes cuqi raise IndexError (not a Gibbs matter)
         else:                 # Gaussian chain through the means
             k = 2
             M = rs.randint(-1, 3, size=(n, k)).astype(float)
-            a = Gaussian(np.zeros(k), 1.0, name="a")
-            b = Gaussian(lambda a: a, float(rs.choice([1.0, 0.5])), geometry=k, name="b")
-            x = Gaussian(lambda b: M @ b, 1.0, geometry=n, name="x")
-            roles = {"a": ("mid", k), "b": ("mid", k), "x": ("latent", n)}
-        y = Gaussian(A @ x, float(rs.choice([0.5, 1.0])), name="y")
+            a = Gaussian(np.zeros(k), 1.0, name=R("a"))
+            b = Gaussian(lam(R("a"), lambda v: v), float(rs.choice([1.0, 0.5])), geometry=k, name=R("b"))
+            x = Gaussian(lam(R("b"), lambda v: M @ v), 1.0, geometry=n, name=R("x"))
+            roles = {R("a"): ("mid", k), R("b"): ("mid", k), R("x"): ("latent", n)}
+        y = Gaussian(A @ x, float(rs.choice([0.5, 1.0])), name=R("y"))
         free = [[a, b, x], [b, a, x], [x, a, b], [x, b, a], [a, x, b], [b, x, a]][int(rs.randint(6))]
-        dens = free + [y]
-        return JointDistribution(*dens)(y=data), roles
+        roles.update(meta)
+        return JointDistribution(*(free + [y]))(**{R("y"): data}), roles
     if tmpl == "H":       # hyper-parameter in the prior and one in the likelihood
         d, l = gam("d"), gam("l")
         gm = rs.rand() < 0.3
         if gm:
-            x = GMRF(np.zeros(n), lambda d: d, name="x")
+            meta["__no0d__"] = {R("d")}     # GMRF calls len() on its precision: a 0-d / scalar value raises (not a Gibbs matter)
+            x = GMRF(np.zeros(n), lam(R("d"), lambda v: v), name=R("x"))
         else:
-            x = Gaussian(np.zeros(n), lambda d: 1 / d, name="x")
-        y = Gaussian(A @ x, lambda l: 1 / l, name="y")
+            x = Gaussian(np.zeros(n), lam(R("d"), lambda v: 1 / v), name=R("x"))
+        y = Gaussian(A @ x, lam(R("l"), lambda v: 1 / v), name=R("y"))
         dens = [d, l, x, y]
-        roles = {"d": ("hyper", 1), "l": ("hyper", 1), "x": ("latent-gmrf" if gm else "latent", n)}
+        roles = {R("d"): ("hyper", 1), R("l"): ("hyper", 1), R("x"): ("latent-gmrf" if gm else "latent", n)}
     elif tmpl == "P":     # only a prior hyper-parameter (2 blocks)
         d = gam("d")
-        x = Gaussian(np.zeros(n), lambda d: 1 / d, name="x")
-        y = Gaussian(A @ x, float(rs.choice([0.5, 1.0, 2.0])), name="y")
+        x = Gaussian(np.zeros(n), lam(R("d"), lambda v: 1 / v), name=R("x"))
+        y = Gaussian(A @ x, float(rs.choice([0.5, 1.0, 2.0])), name=R("y"))
         dens = [d, x, y]
-        roles = {"d": ("hyper", 1), "x": ("latent", n)}
+        roles = {R("d"): ("hyper", 1), R("x"): ("latent", n)}
     elif tmpl == "S":     # one hyper-parameter entering prior AND likelihood
-        s = gam("s")
+        sv = gam("s")
         c = float(rs.choice([1.0, 2.0, 0.5]))
-        x = Gaussian(np.zeros(n), lambda s: 1 / s, name="x")
-        y = Gaussian(A @ x, lambda s: c / s, name="y")
-        dens = [s, x, y]
-        roles = {"s": ("hyper2", 1), "x": ("latent", n)}
+        x = Gaussian(np.zeros(n), lam(R("s"), lambda v: 1 / v), name=R("x"))
+        y = Gaussian(A @ x, lam(R("s"), lambda v: c / v), name=R("y"))
+        dens = [sv, x, y]
+        roles = {R("s"): ("hyper2", 1), R("x"): ("latent", n)}
     elif tmpl == "W":     # an extra childless block whose conditional is a plain distribution
         d, l = gam("d"), gam("l")
-        w = Gaussian(lambda d: d * np.ones(2), float(rs.choice([1.0, 0.5])), geometry=2, name="w")
-        x = Gaussian(np.zeros(n), lambda d: 1 / d, name="x")
-        y = Gaussian(A @ x, lambda l: 1 / l, name="y")
+        w = Gaussian(lam(R("d"), lambda v: v * np.ones(2)), float(rs.choice([1.0, 0.5])), geometry=2, name=R("w"))
+        x = Gaussian(np.zeros(n), lam(R("d"), lambda v: 1 / v), name=R("x"))
+        y = Gaussian(A @ x, lam(R("l"), lambda v: 1 / v), name=R("y"))
         dens = [d, l, w, x, y]
-        roles = {"d": ("hyper2", 1), "l": ("hyper", 1), "w": ("leaf", 2), "x": ("latent", n)}
+        roles = {R("d"): ("hyper2", 1), R("l"): ("hyper", 1), R("w"): ("leaf", 2), R("x"): ("latent", n)}
     else:                 # "C": chain e -> z -> x -> y, d scales x
         k = 2
         M = rs.randint(-1, 3, size=(n, k)).astype(float)
         e, d = gam("e"), gam("d")
-        z = Gaussian(np.zeros(k), lambda e: 1 / e, name="z")
-        x = Gaussian(lambda z: M @ z, lambda d: 1 / d, geometry=n, name="x")
-        y = Gaussian(A @ x, float(rs.choice([0.5, 1.0])), name="y")
+        z = Gaussian(np.zeros(k), lam(R("e"), lambda v: 1 / v), name=R("z"))
+        x = Gaussian(lam(R("z"), lambda v: M @ v), lam(R("d"), lambda v: 1 / v), geometry=n, name=R("x"))
+        y = Gaussian(A @ x, float(rs.choice([0.5, 1.0])), name=R("y"))
         dens = [e, z, d, x, y]
-        roles = {"e": ("hyper", 1), "d": ("hyper", 1), "z": ("mid", k), "x": ("latent", n)}
+        roles = {R("e"): ("hyper", 1), R("d"): ("hyper", 1), R("z"): ("mid", k), R("x"): ("latent", n)}
     order = list(rs.permutation(len(dens)))
     dens = [dens[i] for i in order]
-    post = JointDistribution(*dens)(y=data)
+    roles.update(meta)
+    post = JointDistribution(*dens)(**{R("y"): data})
     return post, roles
 
 
@@ -232,7 +268,7 @@ def legacy_factory(cuqi, rs, role):
 
 
 # ----------------------------------------------------------------------------- unusual initial-point objects
-ODD_MODES = ["int", "f32", "list", "scalar", "0d", "view", "ro", "shared", "shared", "mixed"]
+ODD_MODES = ["int", "f32", "list", "scalar", "0d", "view", "ro", "strided", "neg", "shared", "shared", "mixed"]
 
 
 def odd_initial_points(rs, names, roles, classes, iface):
@@ -257,7 +293,7 @@ def odd_initial_points(rs, names, roles, classes, iface):
                 return False                          # the user's lambda `1/d` cannot divide by a list
             return classes[n] in ("MH", "CWMH", "ULA", "MALA", "NUTS") if iface == "hybrid" else True
         if m in ("scalar", "0d"):
-            return dim == 1
+            return dim == 1 and n not in roles.get("__no0d__", ())
         return True
 
     def base(n, integer=False):
@@ -285,7 +321,7 @@ def odd_initial_points(rs, names, roles, classes, iface):
                 snap("shared:" + ",".join(grp), arr)
         return mode, objs, snaps
     for n in names:
-        m = mode if mode != "mixed" else str(rs.choice(["int", "f32", "list", "scalar", "0d", "view", "ro", None]))
+        m = mode if mode != "mixed" else str(rs.choice(["int", "f32", "list", "scalar", "0d", "view", "ro", "strided", "neg", None]))
         if m in (None, "None") or not allowed(n, m) or rs.rand() < 0.15:
             continue
         if m == "int":
@@ -303,6 +339,15 @@ def odd_initial_points(rs, names, roles, classes, iface):
             k = int(rs.randint(0, 5))
             big[k:k + roles[n][1]] = base(n)
             o = big[k:k + roles[n][1]]
+            snap("base-of:" + n, big)
+        elif m == "strided":
+            big = np.arange(12.0) + 1.0
+            big[0:2 * roles[n][1]:2] = base(n)
+            o = big[0:2 * roles[n][1]:2]
+            snap("base-of:" + n, big)
+        elif m == "neg":
+            big = base(n)[::-1].copy()
+            o = big[::-1]
             snap("base-of:" + n, big)
         else:
             o = base(n); o.setflags(write=False)
@@ -420,26 +465,37 @@ def run_hybrid(ctx, cuqi, idx, rs, thorough, stats):
     for _ in range(int(rs.randint(1, 4))):
         k = int(rs.randint(0 if rs.rand() < 0.1 else 1, 5))
         k = min(k, maxsw - tot)
-        calls.append((("warmup" if not calls and rs.rand() < 0.6 else "sample"), k)); tot += k
+        # before a later call the step counts may be re-configured: a new dictionary assigned, or the current one updated in place
+        reconf = None
+        if calls and rs.rand() < 0.3:
+            reconf = (str(rs.choice(["assign", "inplace"])), {n: int(rs.choice([0, 1, 2, 3, 2, 1])) for n in names})
+        calls.append((("warmup" if not calls and rs.rand() < 0.6 else "sample"), k, reconf)); tot += k
+    how = {"ctor": str(rs.choice(["positional", "keyword"])), "calls": str(rs.choice(["positional", "keyword"])),
+           "tune_freq": float(rs.choice([0.1, 0.5, 1.0]))}
     classes = {n: (type(strategy[n]).__name__ if n in strategy else None) for n in names}
     uinit = {n: (None if (n not in strategy or strategy[n].initial_point is None) else vec(strategy[n].initial_point).copy()) for n in names}
     dinit = {n: (vec(strategy[n]._get_default_initial_point(roles[n][1])) if n in strategy else np.ones(roles[n][1])) for n in names}
     def ip_kind(o):
         return None if o is None else (f"ndarray:{o.dtype}:{o.shape}" + ("" if o.flags.writeable else ":readonly") + (":view" if o.base is not None else "")
                                         if isinstance(o, np.ndarray) else type(o).__name__)
-    desc = {"iface": "HybridGibbs", "template": tmpl, "names": names, "samplers": classes, "malformed": malformed,
+    desc = {"iface": "HybridGibbs", "template": tmpl, "naming": roles["__naming__"], "names": names, "samplers": classes, "malformed": malformed,
             "initial_point_objects": {"mode": odd_mode, "kinds": {n: ip_kind(strategy[n].initial_point) for n in names if n in strategy},
                                       "same_object": [[n for n in names if n in strategy and strategy[n].initial_point is o_] for o_ in
                                                       {id(strategy[n].initial_point): strategy[n].initial_point for n in names if n in strategy and strategy[n].initial_point is not None}.values()
                                                       if sum(1 for n in names if n in strategy and strategy[n].initial_point is o_) > 1]} if odd_mode else None,
-            "num_sampling_steps": dict(nss) if nss is not None else None, "calls": calls, "scenario": idx,
+            "num_sampling_steps": dict(nss) if nss is not None else None, "calls": calls, "passing": how, "scenario": idx,
             "initial_points": {n: (None if uinit[n] is None else uinit[n].tolist()) for n in names}}
     kind = "hybrid:" + tmpl
     K = "HybridGibbs"
     # ---- construct
     try:
         with quiet():
-            G = HybridGibbs(post, strategy, None if nss is None else dict(nss))
+            user_nss = None if nss is None else dict(nss)
+            if how["ctor"] == "positional":
+                G = HybridGibbs(post, strategy, user_nss) if (user_nss is not None or rs.rand() < 0.5) else HybridGibbs(post, strategy)
+            else:
+                G = HybridGibbs(target=post, sampling_strategy=strategy, num_sampling_steps=user_nss) if (user_nss is not None or rs.rand() < 0.5) \
+                    else HybridGibbs(sampling_strategy=strategy, target=post)
         built = True
     except Exception as e:
         built = False
@@ -497,7 +553,8 @@ def run_hybrid(ctx, cuqi, idx, rs, thorough, stats):
             ctx.fail(f"{K}:initial", desc, {n: want.tolist()}, {n: init[n].tolist()},
                      "the initial value of a block is neither the sampler's initial_point nor its default")
             break
-    cfg = {n: max(int(G.num_sampling_steps[n]), 0) for n in par_names}
+    # what the USER configured (default 1), not what the object says it will do
+    cfg = {n: (max(int(nss[n]), 0) if (nss is not None and n in nss) else 1) for n in par_names}
     # ---- oracle book
     cur = {n: init[n].copy() for n in par_names}
     events = []          # implementation trace
@@ -575,8 +632,14 @@ def run_hybrid(ctx, cuqi, idx, rs, thorough, stats):
             acc = orig()
             after = vec(s.current_point).copy()
             moved = not np.array_equal(before, after)
+            # a transition may be accepted without moving the point (CWMH on an integer-dtype point truncates the
+            # proposal back to the old value): the sampler then still replaces its cached evaluation
+            try:
+                accepted = bool(np.any(np.asarray(acc, dtype=float) > 0)) and any(hasattr(s, a) for a in CACHE_ATTRS) and not isinstance(s, NUTS)
+            except Exception:
+                accepted = False
             events.append(("S", n, before, after))
-            draws.append((moved, after))
+            draws.append((moved or accepted, after))
             cur[n] = after.copy()
             state["count"][n] = state["count"].get(n, 0) + 1
             return acc
@@ -607,15 +670,41 @@ def run_hybrid(ctx, cuqi, idx, rs, thorough, stats):
         s = G.samplers[n]
         s.step = make_step(s, s.step)
     ran = True
+    retained = []
     with CondRecorder(cuqi) as rec, seeded(ctx.seed * 1000003 + idx * 7919 + 1):
         try:
             with quiet():
-                for what, k in calls:
-                    (G.warmup if what == "warmup" else G.sample)(k)
+                for what, k, reconf in calls:
+                    if reconf is not None:
+                        if reconf[0] == "assign":
+                            G.num_sampling_steps = dict(reconf[1])
+                        else:
+                            for n_ in par_names:
+                                G.num_sampling_steps[n_] = reconf[1][n_]
+                        for n_ in par_names:
+                            cfg[n_] = max(int(reconf[1][n_]), 0)
+                    if what == "warmup":
+                        G.warmup(k) if how["calls"] == "positional" else G.warmup(Nb=k, tune_freq=how["tune_freq"])
+                    else:
+                        G.sample(k) if how["calls"] == "positional" else G.sample(Ns=k)
+                    # every returned object is kept and re-verified at the end
+                    state["phase"] = "get_samples"
+                    r_ = G.get_samples()
+                    state["phase"] = "run"
+                    retained.append((r_, {n_: np.array(r_[n_].samples, copy=True) for n_ in par_names}, len(snapshots)))
+                state["phase"] = "get_samples"
                 smp = G.get_samples()
         except Exception as e:
             ran = False
             err = f"{type(e).__name__}: {str(e)[:100]}"
+    if not ran and state.get("phase") == "get_samples":
+        # the sweeps ran; only the assembly of the stored tuples failed
+        nonarr = sorted({type(v).__name__ for n_ in par_names for v in G.samples[n_] if not isinstance(v, np.ndarray)})
+        ctx.case(kind + ":get_samples-raised", desc)
+        ctx.fail(f"{K}:stored:get_samples-raises" + (":scalar-initial-point" if nonarr else ""), desc,
+                 "the stored tuples as Samples", "raises " + err + f" (stored non-array entries: {nonarr})",
+                 "get_samples() cannot assemble the stored tuples")
+        return None
     # ORACLE: the user's initial_point objects are never written to
     bad = modified_user_objects(user_snaps)
     if odd_mode:
@@ -636,7 +725,15 @@ def run_hybrid(ctx, cuqi, idx, rs, thorough, stats):
     stats["sweeps"] = stats.get("sweeps", 0) + len(snapshots)
     stats["steps"] = stats.get("steps", 0) + len(draws)
     # ORACLE: the samples returned are the post-sweep tuples of all sweeps (warm-up included), in order
-    tot = sum(k for _, k in calls)
+    tot = sum(c_[1] for c_ in calls)
+    # ORACLE: what earlier calls returned is still what it was, and was the sequence of post-sweep tuples up to then
+    for r_, snap_, upto in retained:
+        for n_ in par_names:
+            now_ = np.asarray(r_[n_].samples)
+            want_ = np.array([sn[n_] for sn in snapshots[:upto]]).T if upto else None
+            if now_.shape != snap_[n_].shape or not np.array_equal(now_, snap_[n_]) or (want_ is not None and not np.array_equal(now_, want_)):
+                fail("stored", None, "returned samples keep their values", n_, "samples returned by an earlier call changed afterwards / are not the post-sweep tuples up to that call")
+                break
     if len(snapshots) != tot:
         fail("stored", None, f"{tot} stored tuples", f"{len(snapshots)}", "number of stored tuples is not the number of sweeps")
     for n in par_names:
@@ -648,7 +745,7 @@ def run_hybrid(ctx, cuqi, idx, rs, thorough, stats):
             fail("stored", None, f"{tot} post-sweep tuples", f"shape {arr.shape}", "get_samples() is not the sequence of post-sweep tuples")
             break
     # ---- model
-    line = hg_line(par_names, flags, ",".join(str(k) for _, k in calls) if calls else "_",
+    line = hg_line(par_names, flags, ",".join(str(c_[1]) + ("" if c_[2] is None else "@" + ":".join(str(int(c_[2][1][n_])) for n_ in par_names)) for c_ in calls) if calls else "_",
                    ";".join(f"{1 if m else 0}|{qv(a)}" for m, a in draws) if draws else "_")
     state["init"] = init
     state["scales"] = scales
@@ -777,6 +874,7 @@ def run_legacy(ctx, cuqi, idx, rs, thorough, stats):
     if tmpl == "G":
         opts = [[("a", "b")], [("b", "x")], [("a", "b", "x")], [("a", "x")], [("b", "a")], [("x", "b", "a")], []]
         for grp in opts[int(rs.randint(len(opts)))]:
+            grp = tuple(roles["__ren__"][c] for c in grp)
             sc = 0.05 if any(roles[m][0] in ("hyper", "hyper2") for m in grp) else 0.3
             fac = (lambda target, sc=sc: LS.MH(target, scale=sc))
             for m in grp:
@@ -784,7 +882,7 @@ def run_legacy(ctx, cuqi, idx, rs, thorough, stats):
             groups.append(tuple(grp))
     elif tmpl == "E" and rs.rand() < 0.5:
         src = [n for n in names if roles[n][0] == "tiny"]
-        leaf = {"a": "b", "c": "e", "u": "v"}[src[0]]
+        leaf = roles["__leafof__"][src[0]]
         chosen[leaf] = chosen[src[0]]          # the dependent block shares the source's (tiny-scale) MH
         groups.append((src[0], leaf) if rs.rand() < 0.5 else (leaf, src[0]))
     else:
@@ -826,7 +924,7 @@ def run_legacy(ctx, cuqi, idx, rs, thorough, stats):
         calls = [(0, 0), (int(rs.randint(1, 4)), 0)]
     else:
         calls = [(int(rs.randint(1, 4)), 0), (int(rs.randint(1, 4)), 0), (int(rs.randint(1, 3)), 0)]
-    desc = {"iface": "legacy Gibbs", "template": tmpl, "names": names, "samplers": classes, "tuple_keys": [list(g_) for g_ in groups],
+    desc = {"iface": "legacy Gibbs", "template": tmpl, "naming": roles["__naming__"], "names": names, "samplers": classes, "tuple_keys": [list(g_) for g_ in groups],
             "calls": calls, "scenario": idx, "init_point_objects": odd_mode,
             "init_point": {n: v.tolist() for n, v in ipts.items()}}
     kind = "legacy:" + tmpl
@@ -957,14 +1055,23 @@ def run_legacy(ctx, cuqi, idx, rs, thorough, stats):
         return pts
     G._get_initial_points = get_init
     last_ret = None
+    retained = []
     with CondRecorder(cuqi) as rec, seeded(ctx.seed * 1000003 + idx * 7919 + 2):
         for (Ns, Nb) in calls:
             try:
                 with quiet():
-                    last_ret = G.sample(Ns, Nb)
+                    kw_ = rs.randint(3)
+                    last_ret = G.sample(Ns, Nb) if kw_ == 0 else (G.sample(Ns=Ns, Nb=Nb) if kw_ == 1 else (G.sample(Ns) if Nb == 0 else G.sample(Nb=Nb, Ns=Ns)))
                 ncalls_done += 1
+                retained.append((last_ret, {n_: np.array(last_ret[n_].samples, copy=True) for n_ in par_names},
+                                 len([1 for w_, _c in stored_log if not w_])))
             except (IndexError, ValueError) as e:
-                outcome = type(e).__name__
+                # the two documented refusals: a second warm-up (ValueError) and continuing from a sample array without
+                # columns (IndexError, known finding / nothing stored); anything else is a crash of a well-formed run
+                ns_so_far = sum(c_[0] for c_ in calls[:ncalls_done])
+                legit = (isinstance(e, ValueError) and ncalls_done >= 1 and Nb != 0 and "warmup" in str(e)) or \
+                        (isinstance(e, IndexError) and ncalls_done >= 1 and ns_so_far == 0)
+                outcome = type(e).__name__ if legit else "crash:" + type(e).__name__ + ": " + str(e)[:80]
                 break
             except Exception as e:
                 outcome = "crash:" + type(e).__name__ + ": " + str(e)[:80]
@@ -994,6 +1101,15 @@ def run_legacy(ctx, cuqi, idx, rs, thorough, stats):
                  "a repeated sample call raises IndexError because the sample array of the previous call has no columns")
         else:
             stats["continue_after_empty_call_refused"] = stats.get("continue_after_empty_call_refused", 0) + 1
+    # ORACLE: what every call returned is still, at the end, the sequence of post-sweep tuples of the sampling phase up to that call
+    sam_all = [c for w, c in stored_log if not w]
+    for r_, snap_, upto in retained:
+        for n_ in par_names:
+            now_ = np.asarray(r_[n_].samples)
+            want_ = np.array([c[n_] for c in sam_all[:upto]]).T if upto else None
+            if now_.shape != snap_[n_].shape or not np.array_equal(now_, snap_[n_]) or (want_ is not None and not np.array_equal(now_, want_)):
+                fail("stored", "returned samples keep their values", n_, "samples returned by an earlier call changed afterwards / are not the post-sweep tuples up to that call")
+                break
     # ORACLE: returned arrays = post-sweep tuples of the sampling phase
     if outcome == "ok" and last_ret is not None:
         sam = [c for w, c in stored_log if not w]
@@ -1062,6 +1178,36 @@ def run_legacy(ctx, cuqi, idx, rs, thorough, stats):
             dis("stored", warm_s[:200], iwarm[:200], "final warm-up arrays differ")
     return line, compare_legacy
 
+# ----------------------------------------------------------------------------- corpus
+def corpus_scalar_initial_point(ctx, cuqi):
+    """fixed scenario (oracle only): a python scalar as initial point of a 1-dim block that is not moved in the first
+    sweep (0 transitions configured), then moved — the stored tuples must still come back from get_samples()"""
+    from cuqi.distribution import Gaussian, Gamma, JointDistribution
+    from cuqi.experimental.mcmc import HybridGibbs, MH, LinearRTO
+    A = cuqi.model.LinearModel(np.array([[1., 2, 0], [0, 1, 1], [1, 0, 1], [2, 1, 0]]))
+    d = Gamma(1, 1, name="d"); x = Gaussian(np.zeros(3), lambda d: 1 / d, name="x"); y = Gaussian(A @ x, 1.0, name="y")
+    post = JointDistribution(d, x, y)(y=np.array([1., 2, 3, 4]))
+    desc = {"iface": "HybridGibbs", "corpus": "scalar initial point, 0 then 1 transitions",
+            "samplers": {"d": "MH(scale=0.05, initial_point=2.0)", "x": "LinearRTO"}, "num_sampling_steps": {"d": 0},
+            "calls": ["sample(1)", "num_sampling_steps['d'] = 1", "sample(6)", "get_samples()"]}
+    ctx.case("hybrid:corpus:scalar-initial-point", desc)
+    with seeded(12345), quiet():
+        G = HybridGibbs(post, {"d": MH(scale=0.05, initial_point=2.0), "x": LinearRTO()}, {"d": 0})
+        G.sample(1); G.num_sampling_steps["d"] = 1; G.sample(6)
+        stored = [vec(v).copy() for v in G.samples["d"]]
+        try:
+            out = np.asarray(G.get_samples()["d"].samples)
+            ok = out.shape == (1, 7) and np.array_equal(out[0], np.array([v[0] for v in stored]))
+            got = "ok" if ok else f"shape {out.shape}"
+        except Exception as e:
+            ok = False
+            got = f"raises {type(e).__name__}: {str(e)[:80]}"
+    if not ok:
+        ctx.fail("HybridGibbs:stored:get_samples-raises:scalar-initial-point", desc, "the 7 stored tuples", got,
+                 "get_samples() cannot assemble the stored tuples when a block's stored values are a python scalar first and arrays later")
+    return None
+
+
 # ----------------------------------------------------------------------------- entry
 def run(ctx):
     cuqi = import_cuqi()
@@ -1091,6 +1237,7 @@ def run(ctx):
             r = None
         if r is not None:
             pending.append(r)
+    guarded(lambda *a: corpus_scalar_initial_point(ctx, cuqi), "HybridGibbs", -1, None)
     for i in range(n_h):
         guarded(run_hybrid, "HybridGibbs", i, np.random.RandomState((ctx.seed * 7919 + i * 104729 + 9) % (2 ** 32)))
     for i in range(n_l):
